@@ -139,7 +139,7 @@ Record NInv (s : net) : Prop := {
   ni_reach : exists outs, reach (n_send s) (mkGhost (n_written s) outs false) /\ Permutation outs (outs_of (n_emitted s));
   ni_noreset : s_reset (n_send s) = None /\ n_resets s = [] /\ n_rreset s = false /\ n_racked s = false;
   ni_emitted : forall f, In f (n_emitted s) -> consistent (n_written s) (eof s) (ef_off f) (ef_data f) (ef_fin f);
-  ni_recv : exists sp, Inv (n_recv s) sp /\ SpecOk (n_written s) (eof s) sp /\
+  ni_recv : exists sp, Inv true (n_recv s) sp /\ SpecOk (n_written s) (eof s) sp /\
                        n_dbytes s = ztake (sp_del sp) (n_written s) /\
                        n_ends s = b2z (r_finished (n_recv s))
 }.
